@@ -695,6 +695,180 @@ def extract_index_exprs(bdir, tmap, fmap):
 
 
 # ---------------------------------------------------------------------------------------------------------------
+# "counted from the end" arithmetic: `ind = size - ind` (push_indexed_lvalue), `to = len - to`, `from = len - from`
+# (f_range, f_extract_range).  Every assignment `v = <expr containing a subtraction whose right operand is v>` of the
+# function, in source order, must be one of the expected sites; the expression is translated with its C types.
+
+REVERSE_EXPRS = [
+    ("src/interpret.c", "push_indexed_lvalue", "ind",
+     ["rev_lindex_str", "rev_lindex_buf", "rev_lindex_arr", "rev_sindex_buf", "rev_sindex_arr"]),
+    ("lib/lpc/operator.c", "f_range", "to", ["rev_range_str_to", "rev_range_buf_to", "rev_range_arr_to"]),
+    ("lib/lpc/operator.c", "f_range", "from", ["rev_range_str_from", "rev_range_buf_from", "rev_range_arr_from"]),
+    ("lib/lpc/operator.c", "f_extract_range", "from", ["rev_erange_str_from", "rev_erange_buf_from", "rev_erange_arr_from"]),
+]
+
+
+def _sub_of_self(n, var):
+    """the rhs contains `X - var` (possibly under casts): a reverse-index computation"""
+    return subtree_has(n, lambda m: m.get("kind") == "BinaryOperator" and m.get("opcode") == "-" and
+                       subtree_has(m["inner"][1], lambda q: _is_ref(q, var)) and
+                       not subtree_has(m["inner"][0], lambda q: _is_ref(q, var)))
+
+
+NUL_MSG = "*Strings cannot contain 0 bytes."
+
+
+def extract_nul_store_rule(bdir):
+    """every `if (...) error ("*Strings cannot contain 0 bytes.")` of eval_instruction (byte lvalue store, += ++ --):
+    does the test exempt buffers (`&& !lvalue_byte_in_buffer`)?  All sites must agree."""
+    fn = ast_function(bdir, "src/interpret.c", "eval_instruction")
+    flags = []
+
+    def visit(n, _):
+        if n.get("kind") == "IfStmt" and len(n.get("inner", [])) >= 2 and error_call_in(n["inner"][1]) == NUL_MSG:
+            flags.append(subtree_has(n["inner"][0], lambda m: m.get("kind") == "DeclRefExpr" and
+                                     m["referencedDecl"]["name"] == "lvalue_byte_in_buffer"))
+    _walk(fn, visit)
+    if not flags:
+        raise TieBroken("nul-store:sites", "no `if (..) error (\"%s\")` found in eval_instruction" % NUL_MSG)
+    if len(set(flags)) != 1:
+        raise TieBroken("nul-store:disagree", "the NUL-store tests of eval_instruction disagree about buffers: %s" % flags)
+    return ("/-- a 0 byte may be stored into a BUFFER through a byte lvalue (the %d NUL tests of eval_instruction carry\n"
+            "    `&& !lvalue_byte_in_buffer`); strings never accept it -/\ndef bufNulStoreAllowed : Bool := %s\n" % (
+                len(flags), "true" if flags[0] else "false"))
+
+
+REVERSE_HELPER = ("lib/lpc/operator.c", "range_from_end")
+
+
+def _helper_call(n, var):
+    """rhs is `range_from_end (X, var)` (possibly under casts / parens): returns the call node"""
+    m = strip(n)
+    while m.get("kind") in ("ImplicitCastExpr", "CStyleCastExpr", "ParenExpr"):
+        m = strip(m["inner"][0])
+    if m.get("kind") == "CallExpr" and callee_name(m) == REVERSE_HELPER[1] and len(m["inner"]) == 3 and _is_ref(m["inner"][2], var):
+        return m
+    return None
+
+
+class TrRaw(Tr):
+    """Tr that also records every SIGNED arithmetic node as (unwrapped mathematical value): the obligations
+    "this C operation does not overflow" are stated over these"""
+
+    def __init__(self):
+        Tr.__init__(self)
+        self.signed_nodes = []
+
+    def int_expr(self, n):
+        k = n.get("kind")
+        if k == "BinaryOperator" and n.get("opcode") in ("+", "-", "*") and ctype(n) in CTYPES and CTYPES[ctype(n)][1]:
+            a = self.int_expr(n["inner"][0])
+            b = self.int_expr(n["inner"][1])
+            raw = "%s %s %s" % (a, n["opcode"], b)
+            self.signed_nodes.append((raw, c_text(n)))
+            return self.wrap(ctype(n), raw)
+        return Tr.int_expr(self, n)
+
+
+def extract_range_from_end(bdir):
+    """`static int64_t range_from_end (int64_t len, int64_t i) { if (C) return A; return B; }` -> Lean `rangeFromEnd`,
+    the condition `rangeFromEndCond`, and the unwrapped values of the signed arithmetic nodes evaluated always
+    (`rangeFromEndNodesCond`) / only when the condition is false (`rangeFromEndNodesElse`) / only when it is true."""
+    src, hname = REVERSE_HELPER
+    fn = ast_function(bdir, src, hname)
+    pnames = [c.get("name") for c in fn.get("inner", []) if c.get("kind") == "ParmVarDecl"]
+    body = [c for c in fn.get("inner", []) if c.get("kind") == "CompoundStmt"][0]
+    stmts = [c for c in body.get("inner", []) if isinstance(c, dict)]
+    if pnames != ["len", "i"] or len(stmts) != 2 or stmts[0].get("kind") != "IfStmt" or stmts[1].get("kind") != "ReturnStmt" or \
+            len(stmts[0]["inner"]) != 2:
+        raise TieBroken("reverse-helper:shape", "%s is not `if (C) return A; return B;` over (len, i): %s" % (hname, pnames))
+    cond, then = stmts[0]["inner"]
+    while then.get("kind") == "CompoundStmt" and len(then.get("inner", [])) == 1:
+        then = then["inner"][0]
+    if then.get("kind") != "ReturnStmt":
+        raise TieBroken("reverse-helper:shape", "then-branch of %s is not a return" % hname)
+    tr = TrRaw()
+    tr.param("len", "long")
+    tr.param("i", "long")
+    try:
+        c = tr.bool_expr(cond)
+        n_cond = len(tr.signed_nodes)
+        a = tr.int_expr(then["inner"][0])
+        n_then = len(tr.signed_nodes)
+        b = tr.int_expr(stmts[1]["inner"][0])
+    except OutOfGrammar as e:
+        raise TieBroken("reverse-helper:grammar", "%s left the grammar: %s" % (hname, e))
+    if [p[0] for p in tr.params] != ["len", "i"]:
+        raise TieBroken("reverse-helper:operands", "unexpected operands %s" % [p[1] for p in tr.params])
+    nodes = tr.signed_nodes
+    lst = lambda xs: "[%s]" % ", ".join(x[0] for x in xs)
+    doc = lambda xs: "; ".join("`%s`" % x[1] for x in xs) or "none"
+    out = [lean_def("rangeFromEndCond", tr, c, "%s: the condition `%s`" % (hname, c_text(cond))),
+           lean_def("rangeFromEnd", tr, "if rangeFromEndCond len i then trunc64 (%s) else trunc64 (%s)" % (a, b),
+                    "%s (len, i): `if (%s) return %s; return %s;` (the value is returned as int64_t)" % (
+                        hname, c_text(cond), c_text(then["inner"][0]), c_text(stmts[1]["inner"][0])), "Int"),
+           lean_def("rangeFromEndNodesCond", tr, lst(nodes[:n_cond]),
+                    "unwrapped values of the SIGNED C operations evaluated by the condition: %s" % doc(nodes[:n_cond]), "List Int"),
+           lean_def("rangeFromEndNodesThen", tr, lst(nodes[n_cond:n_then]),
+                    "... evaluated only when the condition holds: %s" % doc(nodes[n_cond:n_then]), "List Int"),
+           lean_def("rangeFromEndNodesElse", tr, lst(nodes[n_then:]),
+                    "... evaluated only when the condition does not hold: %s" % doc(nodes[n_then:]), "List Int")]
+    return "\n".join(out)
+
+
+def extract_reverse_exprs(bdir):
+    """each site is either a direct subtraction `v = .. X - v ..` (must then be unsigned in C) or a call of the helper
+    `v = range_from_end (X, v)` (whose body is translated once: `rangeFromEnd`, overflow obligations proved in Lean)"""
+    out = []
+    safe = []
+    helper_used = False
+    for src, fname, var, names in REVERSE_EXPRS:
+        fn = ast_function(bdir, src, fname)
+        found = []
+
+        def visit(n, _):
+            if n.get("kind") == "BinaryOperator" and n.get("opcode") == "=" and _is_ref(n["inner"][0], var) and \
+                    (_sub_of_self(n["inner"][1], var) or _helper_call(n["inner"][1], var)):
+                found.append(n)
+        _walk(fn, visit)
+        if len(found) != len(names):
+            raise TieBroken("reverse-expr:%s:%s" % (fname, var), "%d assignments `%s = .. - %s` / `%s = %s (.., %s)` found in %s, expected %d" % (
+                len(found), var, var, var, REVERSE_HELPER[1], var, fname, len(names)))
+        for name, n in zip(names, found):
+            tr = Tr()
+            call = _helper_call(n["inner"][1], var)
+            try:
+                if call:
+                    helper_used = True
+                    arg0 = tr.wrap("long", tr.int_expr(call["inner"][1]))      # converted to the parameter type int64_t
+                    arg1 = tr.int_expr(call["inner"][2])
+                    ex = "rangeFromEnd (%s) (%s)" % (arg0, arg1)
+                else:
+                    ex = "trunc64 (%s)" % tr.int_expr(n["inner"][1])
+            except OutOfGrammar as e:
+                raise TieBroken("reverse-expr:" + name, "expression left the grammar: %s" % e)
+            if len(tr.params) != 2 or tr.params[1][1] != var:
+                raise TieBroken("reverse-expr:" + name, "unexpected operands %s" % [p[1] for p in tr.params])
+            if call:
+                safe.append((name, True, True))
+            else:
+                # a direct subtraction must be done in an unsigned type (signed overflow is undefined behaviour)
+                subs = []
+                _walk(n["inner"][1], lambda m, _: subs.append(m) if m.get("kind") == "BinaryOperator" and m.get("opcode") == "-" else None)
+                safe.append((name, all(ctype(m) in CTYPES and not CTYPES[ctype(m)][1] for m in subs), False))
+            # the value is stored in an int64_t variable
+            out.append(lean_def(name, tr, ex, "%s: `%s = %s`" % (fname, var, c_text(n["inner"][1])), "Int"))
+    out.append("/-- (site, the C computation cannot overflow: an unsigned subtraction, or the helper range_from_end whose signed\n"
+               "    operations are proved in range - NV.C01.range_from_end_no_overflow) -/\ndef revSitesUnsigned : List (String × Bool) :=\n  [%s]\n" %
+               ", ".join('("%s", %s)' % (nm, "true" if u else "false") for nm, u, _ in safe))
+    out.append("/-- the sites computed by the helper range_from_end (saturating) -/\ndef revSitesHelper : List String :=\n  [%s]\n" %
+               ", ".join('"%s"' % nm for nm, _, h in safe if h))
+    if helper_used:
+        out.insert(0, extract_range_from_end(bdir))
+    return "\n".join(out)
+
+
+# ---------------------------------------------------------------------------------------------------------------
 # explode_string(): piece count clamp, fill-loop bound, store indices (lib/lpc/array.c)
 
 def _walk(n, fn, in_for=0):
@@ -1182,6 +1356,8 @@ def generate_all(bdir, tvals):
 
     def p_explode():
         parts.append(extract_index_exprs(bdir, tmap, fmap))
+        parts.append(extract_reverse_exprs(bdir))
+        parts.append(extract_nul_store_rule(bdir))
         parts.append(extract_explode(bdir))
         parts.append(extract_builder_sizes(bdir))
 
